@@ -724,17 +724,17 @@ type typedInner struct {
 	Tags  []string `json:"tags,omitempty"`
 }
 type typedInput struct {
-	Query   string             `json:"query"`
-	Limit   int                `json:"limit,omitempty"`
-	Big     int64              `json:"big,omitempty"`
-	Ratio   float64            `json:"ratio,omitempty"`
-	Flag    *bool              `json:"flag,omitempty"`
-	Tags    []string           `json:"tags,omitempty"`
-	Labels  map[string]string  `json:"labels,omitempty"`
-	Filter  *typedInner        `json:"filter,omitempty"`
-	Nested  typedInner         `json:"nested"`
-	Scores  map[string]float64 `json:"scores,omitempty"`
-	Matrix  [][]int            `json:"matrix,omitempty"`
+	Query  string             `json:"query"`
+	Limit  int                `json:"limit,omitempty"`
+	Big    int64              `json:"big,omitempty"`
+	Ratio  float64            `json:"ratio,omitempty"`
+	Flag   *bool              `json:"flag,omitempty"`
+	Tags   []string           `json:"tags,omitempty"`
+	Labels map[string]string  `json:"labels,omitempty"`
+	Filter *typedInner        `json:"filter,omitempty"`
+	Nested typedInner         `json:"nested"`
+	Scores map[string]float64 `json:"scores,omitempty"`
+	Matrix [][]int            `json:"matrix,omitempty"`
 }
 type typedOutput struct {
 	Echo string `json:"echo"`
